@@ -177,4 +177,4 @@ package jschema
 //@   loop#1 use unfold_atcount(names, rangeindex + 1); unfold_atcount(names, 0)
 //@   at loop#1.back use unfold_atcount(names, rangeindex + 1)
 //@   at loop#1.entry use unfold_atcount(names, 0)
-//@   at return#4 assert len(result) == atcount(names, len(names)) && (forall j :: 0 <= j && j < len(names) && isat(names[j]) ==> result[atcount(names, j)] == names[j])
+//@   at return#3 assert len(result) == atcount(names, len(names)) && (forall j :: 0 <= j && j < len(names) && isat(names[j]) ==> result[atcount(names, j)] == names[j])
